@@ -2,4 +2,4 @@ CONSTANTS Stride = 1
   Deep = TRUE
 INIT Init
 NEXT Next
-INVARIANTS Out FirstTruthyBranch ElseIffEmpty LoopClosedForm InlineIfFilters
+INVARIANTS Out FirstTruthyBranch ElseIffEmpty LoopClosedForm InlineIfFilters ErrorsInBodiesReported
